@@ -211,7 +211,10 @@ func (l *Lexer) scanNewline() Token {
 func (l *Lexer) scanAccount() Token {
 	start := l.pos
 	startPos := l.position()
-	lastNonSpace := start
+	// The name, and with it the token, ends behind the last character that is not a
+	// blank: a single blank in front of ';', '=', '@', ')', ']' or the end of the line is
+	// scanned but is not part of it.
+	end := startPos
 
 	for l.pos < len(l.input) {
 		r, size := utf8.DecodeRuneInString(l.input[l.pos:])
@@ -231,11 +234,11 @@ func (l *Lexer) scanAccount() Token {
 
 		l.pos += size
 		l.column++
-		lastNonSpace = l.pos
+		end = l.position()
 	}
 
-	value := l.input[start:lastNonSpace]
-	return Token{Type: TokenAccount, Value: value, Pos: startPos, End: l.position()}
+	value := l.input[start:end.Offset]
+	return Token{Type: TokenAccount, Value: value, Pos: startPos, End: end}
 }
 
 // isAccountTerminator returns true for characters that end account names in hledger format.
@@ -423,8 +426,22 @@ func (l *Lexer) scanText() Token {
 		l.advance()
 	}
 
-	value := strings.TrimSpace(l.input[start:l.pos])
-	return Token{Type: TokenText, Value: value, Pos: startPos, End: l.position()}
+	scanned := l.input[start:l.pos]
+
+	// The token ends behind the last character that is not white space, where its value
+	// ends, not behind the white space that was scanned after it. (A text of white space
+	// only has no such character and keeps what was scanned, so that no token but the
+	// last one of the input is empty.)
+	end := l.position()
+	if lexeme := strings.TrimRightFunc(scanned, unicode.IsSpace); lexeme != "" {
+		end = Position{
+			Line:   startPos.Line,
+			Column: startPos.Column + utf8.RuneCountInString(lexeme),
+			Offset: start + len(lexeme),
+		}
+	}
+
+	return Token{Type: TokenText, Value: strings.TrimSpace(scanned), Pos: startPos, End: end}
 }
 
 func (l *Lexer) peek() byte {
